@@ -67,6 +67,9 @@ func Farm() *TLSFarm {
 		// a bundle file holding two CAs, and an unparsable file
 		os.WriteFile(filepath.Join(d, "bundleAB.crt"), append(PEMCert(f.cas["caA"].Raw), PEMCert(f.cas["caB"].Raw)...), 0o644)
 		os.WriteFile(filepath.Join(d, "bundleAA2.crt"), append(PEMCert(f.cas["caA"].Raw), PEMCert(f.cas["caA2"].Raw)...), 0o644)
+		// bundles in which CA A is NOT the first certificate of the file
+		os.WriteFile(filepath.Join(d, "bundleBA.crt"), append(PEMCert(f.cas["caB"].Raw), PEMCert(f.cas["caA"].Raw)...), 0o644)
+		os.WriteFile(filepath.Join(d, "bundleBClientsA.crt"), append(append(append([]byte("# old and new CAs\n"), PEMCert(f.cas["caB"].Raw)...), PEMCert(f.cas["caClients"].Raw)...), PEMCert(f.cas["caA"].Raw)...), 0o644)
 		// CA files whose NAMES contain pattern metacharacters, blanks or non-ASCII letters, next to the files
 		// such patterns would match (caA.crt, caB.crt, caForeign.crt ... in the same directory)
 		for name, ca := range OddCAFiles {
